@@ -59,9 +59,11 @@ ASSUMPTIONS = ['object graphs are consistent by construction (an id is the ident
                'CSERenderer.memo is empty (nothing in hail/python writes to it: checked textually on every run)',
                'free variables of the root evaluate in the environment U n -> VInt (n+3)']
 
-HEADER = ('From HailV Require Import Common.Prelude CSE.Model CSE.Main.\n'
+HEADER = ('From HailV Require Import Common.Prelude CSE.Model.\n'
           'Open Scope N_scope.\n'
-          'Definition env0 : env := fun v => match v with U n => VInt (Z.of_N n + 3) | C _ => VJunk end.\n')
+          'Definition env0 : env := fun v => match v with U n => VInt (Z.of_N n + 3) | C _ => VJunk end.\n'
+          '(* one packaged function: a tuple written under the chain of lets makes elaboration blow up *)\n'
+          'Definition out6 (r real : node) := (strip (cse r), wf_node r, fv r, eval (cse r) env0, eval r env0, eval real env0).\n')
 
 MAX_INLINE = 2500
 
@@ -158,7 +160,7 @@ def _check_meta(res, meta, dis):
                 dis.append(Disagreement('metadata', {'node': n}, 'value IR without agg context / effects', 'effectful or agg free vars'))
             for i, (nb, bnd, ag, agb) in enumerate(n['meta']):
                 m_nb, m_b = meta[h[0]][i] if i < 4 else (False, [])
-                m_b = sorted(own[x] for x in m_b)
+                m_b = sorted({own[x] for x in m_b})
                 if nb != m_nb or sorted(bnd) != m_b or ag or agb:
                     dis.append(Disagreement('metadata', {'head': h, 'child': i}, [m_nb, m_b, False, []], [nb, bnd, ag, agb]))
                     return
@@ -174,8 +176,7 @@ def _model_eval(ctx, items):
     for dag, real in items:
         names = L.Names()
         real_c = L.term_to_coq(real, names) if real is not None else '(Node 0 false HTrue [])'
-        body = (f'(strip (cse ROOT), wf_node ROOT, fv ROOT, eval (cse ROOT) env0, eval ROOT env0, eval {real_c} env0)')
-        exprs.append(L.dag_to_coq(dag, names, body))
+        exprs.append(L.dag_to_coq(dag, names, f'out6 ROOT {real_c}'))
         namess.append(names)
     vals = coq_eval(ctx, HEADER, exprs, shard=60, label='corr')
     out = []
